@@ -724,6 +724,9 @@ func (f *formatter) exprRaw(expr ast.Expr, prec1, depth int) {
 		} else {
 			// no parenthesis needed
 			f.print(x.OpPos, x.Op, nooverride)
+			if unaryOpMergesWithOperand(x.Op, x.X) {
+				f.print(blank)
+			}
 			f.expr1(x.X, prec, depth)
 		}
 
@@ -1020,6 +1023,28 @@ func walkBinary(e *ast.BinaryExpr) (has6, has7, has8 bool, maxProblem int) {
 		}
 	}
 	return
+}
+
+// unaryOpMergesWithOperand reports whether printing the unary operator
+// op directly before operand would make the scanner read the two as a
+// single, longer operator: `<` before `-` (`<-`), and `<`, `>` or `!`
+// before an operator starting with `=` (`<=`, `>=`, `!=`).
+func unaryOpMergesWithOperand(op token.Token, operand ast.Expr) bool {
+	inner, ok := operand.(*ast.UnaryExpr)
+	if !ok {
+		return false
+	}
+	lead := inner.Op.String()
+	if lead == "" {
+		return false
+	}
+	switch op {
+	case token.LSS:
+		return lead[0] == '-' || lead[0] == '='
+	case token.GTR, token.NOT:
+		return lead[0] == '='
+	}
+	return false
 }
 
 func cutoff(e *ast.BinaryExpr, depth int) int {
